@@ -1,6 +1,7 @@
 import SlugModel.Lemmas.TrEq_validSymlink
 import SlugModel.Lemmas.TrEq_allowedSymlinkTarget
 import SlugModel.Lemmas.TrEq_isWithin
+import SlugModel.Lemmas.TrEq_newUnpackInfo
 /-!
 # C04 (tie by translation)
 
@@ -26,5 +27,15 @@ theorem C04_tie_allowedSymlinkTarget (allow : List Str) (r t : Str) :
 /-- **C04_tie_isWithin.** The model's `isWithin` is the translated `isWithin` (internal/unpackinfo/unpackinfo.go). -/
 theorem C04_tie_isWithin (r p : Str) : Gen.isWithin r p = isWithin r p :=
   gen_isWithin r p
+
+/-- **C04_tie_newUnpackInfo.** The model's `newUnpackInfo` is the translated `NewUnpackInfo`
+(internal/unpackinfo/unpackinfo.go), for every filesystem, destination and entry: a normal return carries the
+model's extraction path and the header's type flag, an error return is the model's `none`. -/
+theorem C04_tie_newUnpackInfo (fs : FS) (dst : Str) (e : Entry) :
+    Gen.newUnpackInfo fs dst e.name e.typ =
+      (match newUnpackInfo fs dst e with
+       | some p => (({ path := p, typeflag := e.typ } : Go.UnpackInfo), false)
+       | none => (({ path := [], typeflag := Char.ofNat 0 } : Go.UnpackInfo), true)) :=
+  gen_newUnpackInfo fs dst e
 
 end Slug
